@@ -1,6 +1,7 @@
 import Driver.Core
 import RrModel.Spec.C01
 import RrModel.Spec.C20
+import RrModel.Spec.C02
 /- streams: match, dropport, scheme  (C01, C02, C20) -/
 open Go Model Proto
 
@@ -26,8 +27,16 @@ def hMatch : Handler := fun impl => do
   let idxOf (t : String) : Option Nat := match t.toInt? with | some (.ofNat i) => some i | _ => none
   let oracle :=
     match impl with
-    | [pi, _, ci, _, pi2, _, ci2, _, pi3, _, ci3, _] =>
+    | [pi, pt, ci, ct, pi2, _, ci2, _, pi3, _, ci3, _] =>
       let q2 : Query := { q with method := method2 }
+      -- C02: the target of the chosen rule is its destination with the wildcard text substituted for $1
+      let targetOk (i t : String) : Bool :=
+        match idxOf i, fromHex t with
+        | some k, some tb =>
+          -- (a pattern is a URL path pattern: the bare `*` without a leading slash is not judged here)
+          (match rs[k]? with | some r => r.path.head? != some 47 || tb == Spec.C02.targetFor r.path r.dest uri | none => true)
+        | _, _ => true
+      let c02 := if targetOk pi pt && targetOk ci ct then [] else ["bad:C02:target-is-not-the-destination-with-the-wildcard-text-for-$1"]
       let obsOf (p : String) : Spec.C01.Obs :=
         match idxOf p with
         | some i => { proxyRule := some i, status := 0 }
@@ -35,7 +44,7 @@ def hMatch : Handler := fun impl => do
       let bad := (if Spec.C01.holds rs q (obsOf pi) && Spec.C01.holds rs q2 (obsOf pi2) && Spec.C01.holds rs q (obsOf pi3)
                   then [] else ["bad:C01:not-first-matching-rule"]) ++
                  (if Spec.C20.holdsChoice rs q (idxOf ci) && Spec.C20.holdsChoice rs q2 (idxOf ci2) && Spec.C20.holdsChoice rs q (idxOf ci3)
-                  then [] else ["bad:C20:copy-rule-not-first-before-proxy"])
+                  then [] else ["bad:C20:copy-rule-not-first-before-proxy"]) ++ c02
       if bad.isEmpty then "ok" else ",".intercalate bad
     | [pi, _, ci, _] =>
       let obs : Spec.C01.Obs :=
